@@ -12,7 +12,7 @@
      no premise: its fuel S |heap| suffices because the graph is acyclic. *)
 From Avfs Require Import Base BaseProofs PathModel PathSpec PathProofs PathCleanProofs PathIterProofs.
 From Avfs Require Import MemFS MemFile World Inv InvMutators InvSearch InvPath InvWorld InvConseq InvRemoveAll.
-From Avfs Require Import WalkBudget WalkInv.
+From Avfs Require Import WalkBudget WalkInv DacLemmas.
 
 Definition no_panic (r : res) : Prop := r <> RPanic /\ r <> RDeadlock.
 Definition no_fuel (r : res) : Prop :=
@@ -514,7 +514,7 @@ Proof.
     destruct (chdir (w_fs w) v p) as [r|d]; cbn [fst snd sum_ok_if] in *.
     + eapply Hif; [exact H | auto].
     + apply Hok. fin0.
-  - apply Hok. fin0.
+  - apply Hok. cbn [snd]. destruct (getwd_cases (w_fs w) v) as [-> | ->]; fin0.
   - eapply Hif; [apply (stat_gen_total _ v IH HV VO) | auto].
   - eapply Hif; [apply (stat_gen_total _ v IH HV VO) | auto].
   - eapply Hif; [apply (eval_symlinks_total _ v IH HV VO) | auto].
